@@ -147,6 +147,7 @@ def run_cfg(arg):
         res["path_real"] = [os.path.realpath(e["argv"][e["argv"].index("--path") + 1]) for e in res["log"] if e["prog"] == "pack" and "--path" in e["argv"]]
         res["app_real"] = os.path.realpath(app_real)
         res["app_real_listing"] = {os.path.relpath(os.path.join(dp, f), app_real): open(os.path.join(dp, f)).read() for dp, dn, fn in os.walk(app_real) for f in fn}
+        res["app_real_listing"].update({os.path.relpath(os.path.join(dp, f), app_real) + "#exec": "yes" for dp, dn, fn in os.walk(app_real) for f in fn if os.stat(os.path.join(dp, f)).st_mode & 0o100})
         res["preprocessor_effective"] = b2["preprocessor"]
         res["mounts_effective"] = c["mounts"]
 
@@ -338,7 +339,7 @@ def run(ctx):
     res.cov("evaluations", len(cfgs) + len(pairs) + pk)
     res.cov("distinct_nontrivial", len(cfgs) - 2)
     res.cov("distinct_outcomes", len(shapes))
-    res.cov("rule", "configurations = each field varied over its full domain against defaults (builder over 9 strings; env maps of <=2 keys x 10 value strings (plus two 40 kB values, one multi-line) incl. '', leading dashes, spaces, '=', Unicode, shell metacharacters, and keys that are also set (differently) in the test process's own environment (proxy variables, DOCKER_HOST, K); buildpack lists of length <=3 plus references spelled like paths that exist below the crate root; relative/absolute app dir, also one below the run's temp dir; preprocessor; entrypoint None+10 strings; commands of <=2 elements; all port subsets of {80,8080,8081,65535}; <=2 bind mounts over 4 synthetic paths plus existing sources: a directory, a symlink to it and a redundant spelling of it, up to 3 at once); build+rebuild pairs incl. every pair of preprocessor settings {none, A, B} with the app content pack saw judged per build and, in thorough, all pairs of fields over thinned domains; each run through the real TestRunner with stand-in CLIs; plus 5 sets of on-the-fly packaged references (current crate, workspace buildpacks, a composite, overlapping dependency closures) x both expectations in a really compiled generated workspace; the logged argv is decoded with reference parsers and compared with the configuration; non-trivial = non-default configurations")
+    res.cov("rule", "configurations = each field varied over its full domain against defaults (builder over 9 strings; env maps of <=2 keys x 10 value strings (plus two 40 kB values, one multi-line) incl. '', leading dashes, spaces, '=', Unicode, shell metacharacters, and keys that are also set (differently) in the test process's own environment (proxy variables, DOCKER_HOST, K); buildpack lists of length <=3 plus references spelled like paths that exist below the crate root; relative/absolute app dir, also one below the run's temp dir; the app holds an executable file whose permission bits must reach pack (also in the preprocessed private copy); preprocessor; entrypoint None+10 strings; commands of <=2 elements; all port subsets of {80,8080,8081,65535}; <=2 bind mounts over 4 synthetic paths plus existing sources: a directory, a symlink to it and a redundant spelling of it, up to 3 at once); build+rebuild pairs incl. every pair of preprocessor settings {none, A, B} with the app content pack saw judged per build and, in thorough, all pairs of fields over thinned domains; each run through the real TestRunner with stand-in CLIs; plus 5 sets of on-the-fly packaged references (current crate, workspace buildpacks, a composite, overlapping dependency closures) x both expectations in a really compiled generated workspace; the logged argv is decoded with reference parsers and compared with the configuration; non-trivial = non-default configurations")
     res.cov("exhaustive", True)
     for i in (3, len(cfgs) // 2, len(cfgs) - 1):
         if 0 <= i < len(cfgs):
